@@ -257,6 +257,25 @@ impl Scene for Reg {
                 out.push(Violation { clause: "dependants-react", key: format!("C14/no-respawn/cause={ck}"), detail: format!("from_registry after an un-awaited termination returned {res:?} (fresh instance: {fresh:?})") });
             }
         }
+        // ... and the reaction is complete: the fresh instance has taken the dead one's place, so
+        // the registry answers for it from now on (and does not spawn yet another one)
+        let fresh = an.enters.iter().find(|e| e.a == 4 && e.cb == crate::world::Cb::Started).map(|e| e.inst);
+        let spawned = t.log.iter().filter(|e| matches!(e.ev, crate::world::Ev::New { a: 4, .. })).count();
+        if let (Some(f), Some(res)) = (fresh, r(4)) {
+            if !matches!(res, Res::Reg { present: true, ident: Some(i) } if i == f) {
+                out.push(Violation { clause: "dependants-react", key: format!("C14/respawned-not-registered/try_from_registry/cause={ck}"), detail: format!("try_from_registry after the respawn returned {res:?} (fresh instance {f})") });
+            }
+        }
+        if let (Some(_), Some(res)) = (fresh, r(5)) {
+            if res != Res::OptBool(Some(true)) {
+                out.push(Violation { clause: "dependants-react", key: format!("C14/respawned-not-registered/already_running/cause={ck}"), detail: format!("already_running after the respawn returned {res:?}") });
+            }
+        }
+        if let (Some(f), Some(res)) = (fresh, r(6)) {
+            if !matches!(res, Res::Reg { present: true, ident: Some(i) } if i == f) || spawned != 1 {
+                out.push(Violation { clause: "dependants-react", key: format!("C14/respawned-not-registered/second-from_registry/cause={ck}"), detail: format!("a second from_registry after the respawn returned {res:?}; {spawned} instance(s) were spawned on demand, fresh instance {f}") });
+            }
+        }
         out
     }
 }
